@@ -99,6 +99,24 @@ def run_case(case, rec):
                         rec.violation('no-match-error', f'Wordnet({s!r}, lang={lang!r}): raised={raised} although the selection is {want}')
                     rec.done([case['seed'], s, lang], nontrivial=nontrivial,
                              sample={'installed': installed, 'specifier': s, 'lang': lang, 'selected': want})
+            # resolve, add another version of an id, resolve again (same process): a bare id must follow the newest one
+            for step in range(2):
+                lid = r.choice(ids)
+                ver = f'9.{step}'
+                lang = r.choice(['en', 'fr'])
+                lx = doc.gen_lexicon(r, '1.0', lid, ver, prof, language=lang, idprefix=f'{lid}-n{step}-')
+                wnio.add(wnio.write_resource({'lmf_version': '1.0', 'lexicons': [lx]}, work, random.Random(step), name=f'late{step}.xml'))
+                installed.append((f'{lid}:{ver}', lang))
+                for s in [lid, f'{lid} zz', f'{lid}:*', f'{lid}:{ver}', '*']:
+                    for lng in (None, lang):
+                        want = mspec.select(installed, s, lng)
+                        got = [x.specifier() for x in wn.lexicons(lexicon=s, lang=lng)]
+                        rec.event('spec.compared')
+                        rec.event('spec.after-late-add')
+                        if set(got) != set(want):
+                            rec.violation('specifier-after-add', f'after adding {lid}:{ver}: wn.lexicons(lexicon={s!r}, lang={lng!r}) selects {sorted(set(got))}, '
+                                          f'documented {sorted(want)} (installed in this order: {installed})')
+            specs = [s_ for s_ in specs]
             # the same specifiers through wn.remove, each on a copy of the database
             env.close_pool()
             for s in r.sample(specs, 12 if case['tier'] == 'quick' else 40):
